@@ -240,11 +240,36 @@ pub fn run_free(op: &FreeOp, obs: &mut Obs) -> Vec<(String, String, String)> {
 }
 
 fn norm_msg(m: &str) -> String {
-    let mut s: String = m.chars().map(|c| if c.is_ascii_digit() { '#' } else { c }).collect();
-    while s.contains("##") {
-        s = s.replace("##", "#");
+    // value-free: digits collapse to '#', quoted / back-quoted text (which echoes input) is
+    // dropped, anything that is not printable ASCII becomes '?'
+    let mut out = String::new();
+    let mut quote: Option<char> = None;
+    for c in m.chars() {
+        match quote {
+            Some(q) => {
+                if c == q {
+                    quote = None;
+                    out.push(q);
+                }
+            }
+            None => {
+                if c == '`' || c == '"' || c == '\'' {
+                    quote = Some(c);
+                    out.push(c);
+                    out.push('~');
+                } else if c.is_ascii_digit() {
+                    if !out.ends_with('#') {
+                        out.push('#');
+                    }
+                } else if c.is_ascii_graphic() || c == ' ' {
+                    out.push(c);
+                } else {
+                    out.push('?');
+                }
+            }
+        }
     }
-    s.chars().take(90).collect()
+    out.chars().take(90).collect()
 }
 
 fn norm_loc(l: &str) -> String {
@@ -260,7 +285,7 @@ fn norm_loc(l: &str) -> String {
 }
 
 pub fn panic_violation(entry: &str, msg: &str, loc: &str, ctx: &str) -> Violation {
-    Violation::new("C12", format!("panic|{}|{}|{}", entry, norm_loc(loc), norm_msg(msg)), format!("{} panicked at {}: {} ({})", entry, loc, msg, ctx))
+    Violation::new("C12", format!("panic|{}|{}|{}", entry, norm_loc(loc), norm_msg(msg)), format!("{} panicked at {}: {} ({})", entry, loc, msg.escape_default(), ctx.escape_default()))
 }
 
 /// All panics observed in a progressive execution.
